@@ -65,3 +65,16 @@ let txh inp impl =
   | _ -> failwith "txh: bad input"
 
 let () = Registry.register "txh" txh
+
+(* txnids: the ids of the last 8 of n requests of a fresh client are (i + 1) mod 2^16 *)
+let txnids inp impl =
+  match inp with
+  | [n] ->
+    let n = int_of_string n in
+    let ids = List.init (min 8 n) (fun k -> let i = n - (min 8 n) + k in
+                                     Conv.hex_of_n (Model.u16 (Conv.n_of_int (i + 1)))) in
+    let m = String.concat "," ids in
+    (m, if m = impl then "1" else "0")
+  | _ -> failwith "txnids: bad input"
+
+let () = Registry.register "txnids" txnids
